@@ -27,6 +27,8 @@ package util
 
 // the decision as a function of the abstract collection: what Contains answers
 //@ pure func eff(s *IgnoreSet, c string, p token.Pos) bool = s.Initialized && suppressed(s, c, p)
+// ... for a possibly nil set (exactly what Contains returns)
+//@ macro func supp(ign *IgnoreSet, code string, pos token.Pos) bool = ign != nil && ign.Initialized && suppressed(ign, code, pos)
 
 //@ func IgnoreSet.ensureInitialized
 //@   props C16 C10
@@ -239,16 +241,19 @@ package util
 //@   props C04 C09 C10
 //@   nilrecv
 //@   ensures result == (am != nil && len(amTypeAtt(am, pkgPath, typeName)) > 0)
+//@   ensures result ==> contains(amTypeAtt(am, pkgPath, typeName), amTypeAtt(am, pkgPath, typeName)[0])
 //@   assigns nothing
 //@ func AttachmentsMap.HasAnyFunctionAttachments
 //@   props C04 C09 C10
 //@   nilrecv
 //@   ensures result == (am != nil && len(amFuncAtt(am, pkgPath, funcName)) > 0)
+//@   ensures result ==> contains(amFuncAtt(am, pkgPath, funcName), amFuncAtt(am, pkgPath, funcName)[0])
 //@   assigns nothing
 //@ func AttachmentsMap.HasAnyMethodAttachments
 //@   props C04 C09 C10
 //@   nilrecv
 //@   ensures result == (am != nil && len(amMethAtt(am, pkgPath, typeName, methodName)) > 0)
+//@   ensures result ==> contains(amMethAtt(am, pkgPath, typeName, methodName), amMethAtt(am, pkgPath, typeName, methodName)[0])
 //@   assigns nothing
 //@ func AttachmentsMap.Empty
 //@   props C04 C09 C10
